@@ -139,6 +139,80 @@ def run_front_end(case: Dict[str, Any]) -> Tuple[Any, Dict[str, Any]]:
     return computed, dict(case, specs=specs)
 
 
+def report_cases() -> List[Dict[str, Any]]:
+    """What the reader sees: the LONG/SHORT column of rp2_full_report.ods and tax_report_us.ods for one lot consumed by consecutive
+    disposals on both sides of the threshold, and for one disposal spanning lots on both sides."""
+    out = []
+    t0 = datetime(2020, 1, 10, 9, 0, 0, tzinfo=timezone.utc)
+
+    def ts(d: timedelta) -> str:
+        return H.ts_str(t0 + d)
+
+    def buy(n: int, d: timedelta, amount: str) -> Dict[str, Any]:
+        return {"table": "in", "timestamp": ts(d), "exchange": "X1", "holder": "H1", "transaction_type": "BUY", "spot_price": "10", "crypto_in": amount, "row": n, "sym": "", "unique_id": f"lot{n}"}
+
+    def sell(n: int, d: timedelta, amount: str, typ: str = "SELL") -> Dict[str, Any]:
+        return {"table": "out", "timestamp": ts(d), "exchange": "X1", "holder": "H1", "transaction_type": typ, "spot_price": "12", "crypto_out_no_fee": amount, "crypto_fee": "0", "row": n,
+                "sym": "", "unique_id": f"ev{n}"}
+
+    day = timedelta(days=1)
+    for days in ((152, 397, 425), (364, 365, 366), (400, 100 + 365, 30)):
+        specs = [buy(0, timedelta(0), "3")] + [sell(1 + i, d * day, "1", ("SELL", "GIFT", "SELL")[i]) for i, d in enumerate(sorted(days))]
+        out.append({"shape": "report: one lot, disposals on both sides of the threshold", "specs": specs})
+    for second_lot_day in (1, 200, 364):
+        specs = [buy(0, timedelta(0), "1"), buy(1, second_lot_day * day, "1"), buy(2, (second_lot_day + 1) * day, "1"), sell(3, 365 * day + timedelta(seconds=1), "2.5")]
+        out.append({"shape": "report: one disposal over lots on both sides of the threshold", "specs": specs})
+    return out
+
+
+def report_worker(chunk: List[Dict[str, Any]]) -> Stats:
+    from rp2verif import frdriver as D
+    from rp2verif import odsread as O
+    from rp2verif.seams import generator as G
+
+    st = Stats()
+    for case in chunk:
+        for method in ("fifo", "lifo"):
+            st.inc("evaluations")
+            st.inc(f"shape: {case['shape']}")
+            st.inc("distinct_nontrivial")
+            matrix, specs = D.to_sheet(case["specs"], "B1")
+            res = G.run({"assets": {"B1": specs}, "sheets": {"B1": matrix}, "schedule": [(1970, method)], "from": None, "to": None, "country": "us", "lang": "en",
+                         "reports": ["rp2_full_report", "tax_report_us"], "allow_negative": True})
+            base = {"shape": case["shape"], "country": "us", "lt": None, "period": 365, "delta": method, "specs": case["specs"], "report": True}
+            if res["error"]:
+                st.violation(dict(base, signature="C05 report: no report", what=f"{case['shape']} / {method}: {res['error'][:200]}"))
+                continue
+            want = {}
+            for w in res["dumps"]["B1"]["detail"]:
+                long_ = w["lot"] is not None and expected_long(w["lot_ts"], w["event_ts"], 365)
+                want[(w["event_uid"], w["lot_uid"])] = "LONG" if long_ else "SHORT"
+            full = next(v for k, v in res["files"].items() if k.endswith("rp2_full_report.ods"))["B1 Tax"]
+            hits = O.find_rows(full, "Gain / Loss Detail")
+            _s, idx = O.table_after(full, hits[0], key_col=1)
+            got_full = {(O.plain(O.cell(full, i, 10)), O.plain(O.cell(full, i, 18)) if not O.is_blank(O.plain(O.cell(full, i, 18))) else None): O.plain(O.cell(full, i, 4)) for i in idx}
+            tax = next(v for k, v in res["files"].items() if k.endswith("tax_report_us.ods"))
+            got_tax = {}
+            for sheet, rows in tax.items():
+                if sheet == "Legend":
+                    continue
+                for i in range(7, len(rows)):
+                    if not O.is_blank(O.cell(rows, i, 1)):
+                        got_tax[(O.cell(rows, i, 13), O.cell(rows, i, 11) or None)] = O.cell(rows, i, 14)
+            for what, got in (("rp2_full_report", got_full), ("tax_report_us", got_tax)):
+                if got != want:
+                    bad = sorted(str(k) for k in set(got) | set(want) if got.get(k) != want.get(k))
+                    st.violation(dict(base, signature=f"C05 report: {what} LONG/SHORT column", what=f"{case['shape']} / {method}: {what} shows {got.get(eval(bad[0]))} for fraction {bad[0]}, "
+                                      f"its holding period says {want.get(eval(bad[0]))}"))
+    return st
+
+
+def report_init() -> None:
+    from rp2verif.props import c13
+
+    c13.init()
+
+
 def check_case(case: Dict[str, Any], computed: Any) -> List[str]:
     from rp2verif.models.lots import parse_ts
 
@@ -216,7 +290,12 @@ def main(tier: str, budget_s: Optional[float] = None) -> int:
     for r in results:
         if r is not None:
             total.merge(r)
-    complete = done == n
+    rc = report_cases()
+    rres, rdone = common.pmap(report_worker, [[c] for c in rc], deadline=deadline, init=report_init)
+    for r in rres:
+        if r is not None:
+            total.merge(r)
+    complete = done == n and rdone == len(rc)
     new, matched = common.report(PROP, total.violations)
     coverage = {
         "evaluations": total.get("evaluations"),
@@ -224,7 +303,8 @@ def main(tier: str, budget_s: Optional[float] = None) -> int:
         "rule": (
             "grid of 6 acquisition instants (leap day, year end) x 9 deltas around the threshold P (P-1d, P-12h, P-1s, P, P+1s, P+12h, P+1d, 0, 2P) "
             "x 16 UTC-offset pairs x 10 country configurations, plus a sale straddling the threshold over two lots, earn events, and the boundary through the "
-            "spreadsheet front end with sub-second instants (P-0.5s, P-0.25s, P, P+0.5s) for lots bought with and without a crypto fee; "
+            "spreadsheet front end with sub-second instants (P-0.5s, P-0.25s, P, P+0.5s) for lots bought with and without a crypto fee, and the LONG/SHORT "
+            "column of rp2_full_report.ods / tax_report_us.ods read back for lots and disposals on both sides of the threshold; "
             "distinct by construction; non-trivial = within 12 hours of the threshold"
         ),
         "countries": [f"{c}{'' if lt is None else '/' + str(lt)}" for c, lt, _ in COUNTRIES],
@@ -250,7 +330,13 @@ def replay(path: str) -> int:
 
     with open(path, encoding="utf-8") as f:
         case = json.load(f)
-    if case.get("via_parser"):
+    if case.get("report"):
+        import multiprocessing as mp
+
+        with mp.get_context("fork").Pool(1, initializer=report_init) as pool:
+            st = pool.apply(report_worker, ([case],))
+        problems = [v["what"] for v in st.violations]
+    elif case.get("via_parser"):
         computed, case2 = run_front_end(case)
         problems = check_case(case2, computed)
     else:
